@@ -399,7 +399,7 @@ pub fn run(ctx: &Ctx, prop: &str) -> Report {
         ext.push(1);
         ext.extend_from_slice(&[0u8; 8]);
         run_one(&mut rep, prop, &ext, true);
-        for id in [token::native_mint::id(), token::id(), token_2022::id()] {
+        for id in [token::native_mint::id(), token::id(), token_2022::id(), spl_token_2022_interface::native_mint::id(), spl_token_interface::native_mint::id(), Pubkey::default()] {
             // an account whose mint / owner is one of the well-known keys
             let mut a = vec![0u8; 165];
             a[0..32].copy_from_slice(&id.to_bytes());
